@@ -240,11 +240,27 @@ pub fn case_prom(bytes: &[u8], _s: &[u8], ctx: &mut Ctx) -> Result<(), Fail> {
             *kind = *k % 3;
         }
     }
-    ctx.case(&case);
+    // exporter configuration beside the timeout: global labels (one of them shadowed by the keys' own label),
+    // bucketed histograms instead of summaries, keys without labels of their own
+    let cfgbits = src.below(16);
+    ctx.case(&(&case, cfgbits));
     let (clock, mock) = Clock::mock();
-    let rec = PrometheusBuilder::new().idle_timeout(mk_mask(case.mask), case.timeout.map(Duration::from_nanos)).__verif_build_with_clock(clock);
+    let mut b = PrometheusBuilder::new().idle_timeout(mk_mask(case.mask), case.timeout.map(Duration::from_nanos));
+    if cfgbits & 1 != 0 {
+        b = b.add_global_label("env", "prod");
+        ctx.class("global-label");
+    }
+    if cfgbits & 2 != 0 {
+        b = b.add_global_label("l", "global");
+        ctx.class("global-label");
+    }
+    if cfgbits & 4 != 0 {
+        b = b.set_buckets(&[0.5, 2.0]).unwrap();
+        ctx.class("bucketed-histograms");
+    }
+    let rec = b.__verif_build_with_clock(clock);
     let handle = rec.handle();
-    let keys: Vec<Key> = (0..case.nkeys).map(|i| Key::from_parts(format!("k{}", i), vec![Label::new("l", "v")])).collect();
+    let keys: Vec<Key> = (0..case.nkeys).map(|i| if cfgbits & 8 != 0 { Key::from_name(format!("k{}", i)) } else { Key::from_parts(format!("k{}", i), vec![Label::new("l", "v")]) }).collect();
     let mut model: HashMap<usize, RefState> = HashMap::new();
     let mut now = 0u64;
     let mut dropped_any = false;
